@@ -776,7 +776,7 @@ func cmdC02(seed int64, tier, outDir string) {
 	c02Setup()
 	n, maxNodes := 700, 36
 	if tier == "thorough" {
-		n, maxNodes = 30000, 100
+		n, maxNodes = 10000, 90
 	}
 	sum := NewSummary("C02", seed, tier)
 	sum.Rule = "programs of the C01 generator biased to constant sub-expressions (constant operands, constant closures applied to constants, constant lists/maps, constant conditions), chains c op x op c / x op c op c / c op c op x (corpus: every operator x every pair of constant kinds int float string bool list map; generated: typed chains and random ones), string + chains, an impure host function tick(k,x) and a pure one ptick(k,x); each program generated with the default optimizer and with SetOptimizer(nil), 3 argument tuples. Distinct non-trivial: distinct program texts for which the real optimizer returned a different AST than the parser without optimizer and in which at least one variable survives"
